@@ -29,8 +29,8 @@ CHECKS["C15"] = {
 
 CHECKS["C17"] = {
     "runs": [R("./ast/astutil", {"fn": r"^ZZ_C17_"})],
-    "expect_asserts": [r"C17\.walk\.no-error/.*", r"C17\.walk\.child-presented-once/.*", r"C17\.stop\.returns-callback-error/.*", r"C17\.pairs\.descendant-presented-once/LetsExpr>MultiplyOperator", r"C17\.history\.walk-after-aborted-walk/child-presented-once/.*"],
-    "bounds": {"histories": "three walks of one program rooted in a StmtsStmt: aborted at a symbolic index (or complete), complete, aborted at index 1", "node kinds": "all struct types of package ast embedding StmtImpl/ExprImpl/OperatorImpl, derived by go/types at check time (enumerated by forking)",
+    "expect_asserts": [r"C17\.walk\.no-error/.*", r"C17\.walk\.child-presented-once/.*", r"C17\.stop\.returns-callback-error/.*", r"C17\.pairs\.descendant-presented-once/LetsExpr>MultiplyOperator", r"C17\.history\.walk-after-aborted-walk/child-presented-once/.*", r"C17\.deep\.every-node-presented/.*"],
+    "bounds": {"depth": "operator chains, nested lists and nested ifs 40 and 700 levels deep, and c-1, c, c+1, 2c+1 levels for every integer constant c (8..65536, depth <= 5000) written in /repo/ast/astutil and /repo/ast", "histories": "three walks of one program rooted in a StmtsStmt: aborted at a symbolic index (or complete), complete, aborted at index 1", "node kinds": "all struct types of package ast embedding StmtImpl/ExprImpl/OperatorImpl, derived by go/types at check time (enumerated by forking)",
                "list-valued child fields": "0..2 elements", "optional children": "present / nil",
                "early stop": "callback fails at call j, j symbolic in 0..63 (solver-decided)",
                "parent x child kinds": "every ordered pair of node kinds (an operator in an expression position inside the OpExpr the parser builds): all three levels presented once, parents first"},
